@@ -41,61 +41,233 @@ func pow2(w int) string {
 	return constant.Shift(constant.MakeInt64(1), token.SHL, uint(w)).ExactString()
 }
 
+// nval is a translated unsigned expression: Lean text, plus its value when it is a constant
+type nval struct {
+	s string
+	c constant.Value
+}
+
+func constVal(c constant.Value) nval { return nval{s: c.ExactString(), c: c} }
+
+// natEnv maps variables to what they stand for (parameters of an inlined helper to the argument
+// expressions, locals of an inlined helper to their defining expressions, constants to their value)
+type natEnv map[types.Object]nval
+
 func (w *world) natExpr(info *types.Info, x ast.Expr) (string, bool) {
+	v, ok := w.natEval(info, natEnv{}, x, 0)
+	return v.s, ok
+}
+
+func foldBin(op token.Token, a, b constant.Value, width int) (constant.Value, bool) {
+	mod := constant.Shift(constant.MakeInt64(1), token.SHL, uint(width))
+	red := func(v constant.Value) constant.Value { return constant.BinaryOp(v, token.REM, mod) }
+	switch op {
+	case token.ADD, token.MUL, token.AND, token.OR:
+		return red(constant.BinaryOp(a, op, b)), true
+	case token.SUB:
+		return red(constant.BinaryOp(constant.BinaryOp(a, token.ADD, mod), token.SUB, b)), true
+	case token.SHL, token.SHR:
+		n, ok := constant.Uint64Val(b)
+		if !ok || n > 4096 {
+			return nil, false
+		}
+		return red(constant.Shift(a, op, uint(n))), true
+	case token.REM, token.QUO:
+		if constant.Sign(b) == 0 {
+			return nil, false
+		}
+		if op == token.QUO {
+			return constant.BinaryOp(a, token.QUO_ASSIGN, b), true // integer division
+		}
+		return constant.BinaryOp(a, token.REM, b), true
+	}
+	return nil, false
+}
+
+func (w *world) natBin(op token.Token, a, b nval, wd int) (nval, bool) {
+	if wd == 0 {
+		return nval{}, false
+	}
+	if a.c != nil && b.c != nil {
+		if c, ok := foldBin(op, a.c, b.c, wd); ok {
+			return constVal(c), true
+		}
+	}
+	isZero := func(v nval) bool { return v.c != nil && constant.Sign(v.c) == 0 }
+	m := pow2(wd)
+	switch op {
+	case token.ADD:
+		return nval{s: fmt.Sprintf("((%s + %s) %% %s)", a.s, b.s, m)}, true
+	case token.MUL:
+		return nval{s: fmt.Sprintf("((%s * %s) %% %s)", a.s, b.s, m)}, true
+	case token.SUB:
+		return nval{s: fmt.Sprintf("((%s + %s - %s) %% %s)", a.s, m, b.s, m)}, true
+	case token.SHL:
+		if isZero(b) {
+			return a, true
+		}
+		return nval{s: fmt.Sprintf("((%s <<< %s) %% %s)", a.s, b.s, m)}, true
+	case token.SHR:
+		if isZero(b) {
+			return a, true
+		}
+		return nval{s: fmt.Sprintf("(%s >>> %s)", a.s, b.s)}, true
+	case token.AND:
+		return nval{s: fmt.Sprintf("(%s &&& %s)", a.s, b.s)}, true
+	case token.OR:
+		return nval{s: fmt.Sprintf("(%s ||| %s)", a.s, b.s)}, true
+	case token.REM:
+		return nval{s: fmt.Sprintf("(%s %% %s)", a.s, b.s)}, true
+	case token.QUO:
+		return nval{s: fmt.Sprintf("(%s / %s)", a.s, b.s)}, true
+	}
+	return nval{}, false
+}
+
+// straightHelper evaluates a call of a package-level function whose body is straight-line
+// (`x := e`, `x = e`, `x op= e`, `var x T`, one final `return e`) by substitution
+func (w *world) natCall(info *types.Info, env natEnv, call *ast.CallExpr, depth int) (nval, bool) {
+	if depth > 4 {
+		return nval{}, false
+	}
+	var fn *types.Func
+	switch f := unparen(call.Fun).(type) {
+	case *ast.Ident:
+		fn, _ = info.Uses[f].(*types.Func)
+	case *ast.SelectorExpr:
+		fn, _ = info.Uses[f.Sel].(*types.Func)
+	}
+	if fn == nil {
+		return nval{}, false
+	}
+	fd := w.funcs[fn]
+	if fd == nil || fd.Body == nil || fd.Recv != nil {
+		return nval{}, false
+	}
+	sig := fn.Type().(*types.Signature)
+	if sig.Results().Len() != 1 || uintWidth(sig.Results().At(0).Type()) == 0 || sig.Params().Len() != len(call.Args) || sig.Variadic() {
+		return nval{}, false
+	}
+	inner := natEnv{}
+	for i, a := range call.Args {
+		pt := sig.Params().At(i).Type()
+		if uintWidth(pt) == 0 {
+			return nval{}, false
+		}
+		v, ok := w.natEval(info, env, a, depth)
+		if !ok {
+			return nval{}, false
+		}
+		if v.c != nil { // an untyped constant argument takes the parameter's type
+			v = constVal(constant.BinaryOp(v.c, token.REM, constant.Shift(constant.MakeInt64(1), token.SHL, uint(uintWidth(pt)))))
+		}
+		inner[sig.Params().At(i)] = v
+	}
+	hinfo := w.infoOf[fd]
+	for i, st := range fd.Body.List {
+		switch s := st.(type) {
+		case *ast.ReturnStmt:
+			if i != len(fd.Body.List)-1 || len(s.Results) != 1 {
+				return nval{}, false
+			}
+			return w.natEval(hinfo, inner, s.Results[0], depth+1)
+		case *ast.AssignStmt:
+			obj, v, ok := w.natAssign(hinfo, inner, s, depth+1)
+			if !ok {
+				return nval{}, false
+			}
+			inner[obj] = v
+		default:
+			return nval{}, false
+		}
+	}
+	return nval{}, false
+}
+
+// natAssign evaluates `x := e`, `x = e`, `x op= e` on one unsigned variable
+func (w *world) natAssign(info *types.Info, env natEnv, s *ast.AssignStmt, depth int) (types.Object, nval, bool) {
+	if len(s.Lhs) != 1 || len(s.Rhs) != 1 {
+		return nil, nval{}, false
+	}
+	id, ok := s.Lhs[0].(*ast.Ident)
+	if !ok || uintWidth(info.TypeOf(s.Lhs[0])) == 0 {
+		return nil, nval{}, false
+	}
+	obj := info.ObjectOf(id)
+	rhs, ok := w.natEval(info, env, s.Rhs[0], depth)
+	if !ok || obj == nil {
+		return nil, nval{}, false
+	}
+	wd := uintWidth(info.TypeOf(s.Lhs[0]))
+	if rhs.c != nil {
+		rhs = constVal(constant.BinaryOp(rhs.c, token.REM, constant.Shift(constant.MakeInt64(1), token.SHL, uint(wd))))
+	}
+	switch s.Tok {
+	case token.ASSIGN, token.DEFINE:
+		return obj, rhs, true
+	}
+	ops := map[token.Token]token.Token{token.ADD_ASSIGN: token.ADD, token.SUB_ASSIGN: token.SUB, token.MUL_ASSIGN: token.MUL, token.SHL_ASSIGN: token.SHL,
+		token.SHR_ASSIGN: token.SHR, token.AND_ASSIGN: token.AND, token.OR_ASSIGN: token.OR, token.REM_ASSIGN: token.REM, token.QUO_ASSIGN: token.QUO}
+	op, ok := ops[s.Tok]
+	if !ok {
+		return nil, nval{}, false
+	}
+	cur, ok := env[obj]
+	if !ok {
+		cur = nval{s: id.Name}
+	}
+	v, ok := w.natBin(op, cur, rhs, wd)
+	return obj, v, ok
+}
+
+func (w *world) natEval(info *types.Info, env natEnv, x ast.Expr, depth int) (nval, bool) {
 	x = unparen(x)
 	if tv, ok := info.Types[x]; ok && tv.Value != nil && tv.Value.Kind() == constant.Int {
-		return tv.Value.ExactString(), true
+		return constVal(tv.Value), true
 	}
 	switch t := x.(type) {
 	case *ast.Ident:
-		if _, ok := info.Uses[t].(*types.Var); ok {
-			return t.Name, true
+		if obj, ok := info.Uses[t].(*types.Var); ok {
+			if v, ok := env[obj]; ok {
+				return v, true
+			}
+			return nval{s: t.Name}, true
 		}
-	case *ast.CallExpr: // conversion uintN(e)
+	case *ast.CallExpr: // conversion uintN(e), or a straight-line helper
 		if len(t.Args) == 1 {
 			if tv, ok := info.Types[t.Fun]; ok && tv.IsType() {
 				to := uintWidth(tv.Type)
 				from := uintWidth(info.Types[t.Args[0]].Type)
-				a, ok := w.natExpr(info, t.Args[0])
-				if !ok || to == 0 || from == 0 {
-					return "", false
+				a, ok := w.natEval(info, env, t.Args[0], depth)
+				if !ok || to == 0 {
+					return nval{}, false
+				}
+				if a.c != nil {
+					return constVal(constant.BinaryOp(a.c, token.REM, constant.Shift(constant.MakeInt64(1), token.SHL, uint(to)))), true
+				}
+				if from == 0 {
+					return nval{}, false
 				}
 				if to < from {
-					return fmt.Sprintf("(%s %% %s)", a, pow2(to)), true
+					return nval{s: fmt.Sprintf("(%s %% %s)", a.s, pow2(to))}, true
 				}
 				return a, true
 			}
 		}
+		return w.natCall(info, env, t, depth)
 	case *ast.BinaryExpr:
 		wd := uintWidth(info.Types[t].Type)
-		a, ok1 := w.natExpr(info, t.X)
-		b, ok2 := w.natExpr(info, t.Y)
-		if !ok1 || !ok2 || wd == 0 {
-			return "", false
+		a, ok1 := w.natEval(info, env, t.X, depth)
+		b, ok2 := w.natEval(info, env, t.Y, depth)
+		if !ok1 || !ok2 {
+			return nval{}, false
 		}
-		m := pow2(wd)
-		switch t.Op {
-		case token.ADD:
-			return fmt.Sprintf("((%s + %s) %% %s)", a, b, m), true
-		case token.MUL:
-			return fmt.Sprintf("((%s * %s) %% %s)", a, b, m), true
-		case token.SUB:
-			return fmt.Sprintf("((%s + %s - %s) %% %s)", a, m, b, m), true
-		case token.SHL:
-			return fmt.Sprintf("((%s <<< %s) %% %s)", a, b, m), true
-		case token.SHR:
-			return fmt.Sprintf("(%s >>> %s)", a, b), true
-		case token.AND:
-			return fmt.Sprintf("(%s &&& %s)", a, b), true
-		case token.OR:
-			return fmt.Sprintf("(%s ||| %s)", a, b), true
-		case token.REM:
-			return fmt.Sprintf("(%s %% %s)", a, b), true
-		case token.QUO:
-			return fmt.Sprintf("(%s / %s)", a, b), true
+		if wd == 0 && (t.Op == token.SHL || t.Op == token.SHR) {
+			wd = uintWidth(info.Types[t.X].Type)
 		}
+		return w.natBin(t.Op, a, b, wd)
 	}
-	return "", false
+	return nval{}, false
 }
 
 func (w *world) genFuncs() string {
@@ -139,6 +311,7 @@ func (w *world) genFuncs() string {
 		}
 		var ret string
 		bad := ""
+		topEnv := natEnv{}
 		if fd.Body == nil {
 			okAll = false
 		}
@@ -171,17 +344,13 @@ func (w *world) genFuncs() string {
 					}
 				}
 			case *ast.AssignStmt:
-				if len(s.Lhs) != 1 || len(s.Rhs) != 1 || (s.Tok != token.ASSIGN && s.Tok != token.DEFINE) {
+				obj, v, ok := w.natAssign(info, topEnv, s, 0)
+				if !ok {
 					bad = w.pos(st)
 					break
 				}
-				id, ok := s.Lhs[0].(*ast.Ident)
-				e, ok2 := w.natExpr(info, s.Rhs[0])
-				if !ok || !ok2 || uintWidth(info.TypeOf(s.Lhs[0])) == 0 {
-					bad = w.pos(st)
-					break
-				}
-				lets = append(lets, fmt.Sprintf("let %s := %s", id.Name, e))
+				delete(topEnv, obj) // from here on the variable is the `let` below
+				lets = append(lets, fmt.Sprintf("let %s := %s", obj.Name(), v.s))
 			case *ast.ReturnStmt:
 				if len(s.Results) == 0 && named {
 					ret = "(" + strings.Join(results, ", ") + ")"
